@@ -20,6 +20,62 @@ OPTION_SETS = [
 ]
 
 
+# same-named nested classes that each publish a sequence of the same name; a class with a synthesised `operator []=` (item assignment)
+SCENARIO = """
+class Inventory {
+__published:
+  class Slot {
+  __published:
+    int get_num_items() const;
+    int get_item(int n) const;
+    __make_seq(%(seq)s, get_num_items, get_item);
+  };
+  int get_num_slots() const;
+  int get_slot(int n) const;
+  __make_seq(get_slots, get_num_slots, get_slot);
+};
+class Toolbar {
+__published:
+  class Slot {
+  __published:
+    int get_num_items() const;
+    int get_item(int n) const;
+    __make_seq(%(seq)s, get_num_items, get_item);
+  };
+};
+class Grid {
+__published:
+  Grid();
+  int &operator [] (int i);
+  int operator [] (int i) const;
+  int size() const;
+};
+"""
+
+
+def make_seq_links(lay, data):
+    """every sequence a class lists is its own: the getters are methods of that class, and no two classes share a record"""
+    db = dbgen.dec_file(lay, data)
+    types = dict(db["type"])
+    seqs = dict(db["makeSeq"])
+    owner = {}
+    for ti, t in db["type"]:
+        for si in t["_make_seqs"]:
+            if si not in seqs:
+                return "type %s lists make_seq %d, which does not exist" % (t["_scoped_name"].decode(), si)
+            if si in owner and owner[si] != ti:
+                return "make_seq %s is listed by both %s and %s" % (seqs[si]["_scoped_name"].decode(), types[owner[si]]["_scoped_name"].decode(), t["_scoped_name"].decode())
+            owner[si] = ti
+            for g in ("_length_getter", "_element_getter"):
+                if seqs[si][g] not in t["_methods"]:
+                    return "make_seq %s of %s: its %s is function %d, which is not a method of that class" % (
+                        seqs[si]["_scoped_name"].decode(), t["_scoped_name"].decode(), g, seqs[si][g])
+    for si, sq in db["makeSeq"]:
+        if si not in owner:
+            return "make_seq %s belongs to no class" % sq["_scoped_name"].decode()
+    return None
+
+
 def interrogate(bdir, wd, hdr, opts, stem):
     oc, od = wd / (stem + ".cxx"), wd / (stem + ".in")
     cmd = [str(bdir / "bin" / "interrogate"), "-D__cplusplus", "-oc", str(oc), "-od", str(od), "-module", "m", "-library", "l" + stem,
@@ -94,8 +150,8 @@ def run(ck):
                 hp.write_text("__begin_publish\n" + "".join("int %s(int a);\n" % x for x in fam) + "__end_publish\n")
             else:
                 h = hdrgen.gen_header(rng, n_classes=rng.randrange(1, 5))
-                hp.write_text(h.text())
-            optsets = rng.sample(OPTION_SETS, 3) if quick else OPTION_SETS
+                hp.write_text(h.text().replace("#endif\n", SCENARIO % {"seq": rng.choice(["get_items", "get_things"])} + "#endif\n"))
+            optsets = [OPTION_SETS[0]] + rng.sample(OPTION_SETS[1:], 2) if quick else OPTION_SETS
             if n >= n_hdr:
                 optsets = [["-c", "-fnames"], ["-python", "-fnames"]]
             for oi, opts in enumerate(optsets):
@@ -122,6 +178,11 @@ def run(ck):
                     if bad:
                         ck.violation("real-db:%s" % bad[0].split(":")[0], "interrogate %s on %s wrote a database with %s" % (" ".join(opts), hp.name, "; ".join(bad)),
                                      {hp.name: hp.read_text(), "out.in": od.read_bytes(), "cmd.txt": "interrogate -D__cplusplus -oc x.cxx -od out.in -module m -library l %s %s\n" % (" ".join(opts), hp.name)})
+                ck.search_case("make-seq-links")
+                ml = make_seq_links(lay, od.read_bytes())
+                if ml:
+                    ck.violation("real-db:make-seq-links", "interrogate %s on %s: %s" % (" ".join(opts), hp.name, ml),
+                                 {hp.name: hp.read_text(), "out.in": od.read_bytes(), "cmd.txt": "interrogate -D__cplusplus -oc x.cxx -od out.in -module m -library l %s %s\n" % (" ".join(opts), hp.name)})
                 # ---- generated C code agrees with the database (callable-by-name C wrappers) ----
                 if opts[0] == "-c" and "-fnames" in opts:
                     ck.search_case("c-signature-agrees")
@@ -184,7 +245,7 @@ def signature_check(ck, exe, wd, hp, oc, od):
             return ("missing", "wrapper %s is listed in the database but not defined in the generated code" % name, redecl)
     rp = wd / "redecl.cxx"
     rp.write_text(redecl + '#include "%s"\n' % oc.name)
-    rc, out, err = iglib.sh(["g++", "-std=c++17", "-fsyntax-only", "-w", "-D__published=public", "-D__begin_publish=", "-D__end_publish=",
+    rc, out, err = iglib.sh(["g++", "-std=c++17", "-fsyntax-only", "-w", "-D__published=public", "-D__begin_publish=", "-D__end_publish=", "-D__make_seq(a,b,c)=",
                              "-I", str(wd), "-I", str(iglib.VERIF / "shims"), "-I", str(iglib.REPO / "src/dtoolbase"),
                              "-I", str(iglib.REPO / "src/interrogatedb"), "-I", str(iglib.REPO / "src/dtoolutil"), str(rp)], timeout=120)
     if rc != 0:
